@@ -103,14 +103,14 @@ def run(ctx):
     from vlib.c01_replay import replay
     if replay(ctx):
         return
-    b = ctx.coq_build(COQ_FILES)
+    b = ctx.coq_build_cached(COQ_FILES)
     if not b["ok"]:
         ctx.violation("theorem-broken", f"{b.get('failed_lemma')} in {b['file']}",
                       {"theorem": b.get("failed_lemma"), "file": b["file"], "coq_output": b["out"][-1500:]})
         if "PropsC08" not in b["file"] and "VyLaws" not in b["file"]:
             return
     t0 = time.time()
-    rounds = 2 if ctx.tier == "quick" else 8
+    rounds = 1 if ctx.tier == "quick" else 8
     mk = lambda salt: ctx.rng("matrix:" + salt)
     # classify every (position, round) by which front end accepts it (a rejection is a compile-time outcome, not an effect-order
     # violation; it is recorded in the evidence)
@@ -151,7 +151,7 @@ def run(ctx):
                               {"result": str(r), "source": it["prog"].vy()[:3000]})
                 return
     cfgs = c08_configs(ctx.tier)
-    obs = D.observe_all(items, cfgs, procs=3)
+    obs = D.observe_all(items, cfgs, procs=4)
     n_cmp = 0
     rejected = {}
     rejected_src = {}
